@@ -1108,6 +1108,27 @@ fn c09_file(version: &str, spelling: usize, placement: usize, body_kind: usize, 
     rng.shuffle(&mut stmts);
     f.body = Some(b.st(S::Block { unchecked: false, stmts }));
     parts.push(Part::Func(f));
+    // now and then a receive / fallback function whose modifier invocation carries a SafeMath call and a require with a
+    // message in its arguments (sites like any other)
+    if rng.chance(1, 3) {
+        let kind = if rng.chance(1, 2) { FnKind::Receive } else { FnKind::Fallback };
+        let mut rf = b.func(kind, true, false);
+        rf.attrs = vec![FAttr::Vis("external"), FAttr::Mut("payable")];
+        let x = b.var("x");
+        let m = b.member(x, rng.ps(&["add", "sub", "mul", "div"]));
+        let one = b.num("1");
+        let sm = b.call(m, vec![one]);
+        let rq = b.var("require");
+        let c0 = b.var("flag");
+        let lit = b.ex(E::Str(vec![rng.ps(&["\"short\"", "\"a revert reason that is considerably longer than thirty-two bytes\""]).to_string()]));
+        let rcall = b.call(rq, vec![c0, lit]);
+        let mut margs = vec![sm, rcall];
+        rng.shuffle(&mut margs);
+        rf.attrs.push(FAttr::Modifier("guarded".into(), Some(margs)));
+        rf.body = Some(b.st(S::Block { unchecked: false, stmts: vec![] }));
+        let at = rng.below(parts.len() + 1);
+        parts.insert(at, Part::Func(rf));
+    }
     // where the directive stands does not matter: in front of the calling function (as built), behind it, in a
     // later contract of the file, or (file level) behind the contract
     let where_using = rng.below(4);
